@@ -1914,29 +1914,3 @@ Theorem parse_program_same_statements_real ra rb A X : eof_ended ra -> eof_ended
 Proof. apply parse_program_same_statements; [apply real_format_advs|apply real_format_local|apply real_format_lt]. Qed.
 End REAL.
 
-Print Assumptions swp_all.
-Print Assumptions parse_raw_swap.
-Print Assumptions parse_movement_swap.
-Print Assumptions parse_mart_swap.
-Print Assumptions parse_text_swap.
-Print Assumptions parse_const_swap.
-Print Assumptions parse_const_swap2.
-Print Assumptions parse_script_swap.
-Print Assumptions parse_mapscripts_swap.
-Print Assumptions parse_tops_step.
-Print Assumptions top_step_state.
-Print Assumptions top_step_context.
-Print Assumptions tops_run_parse_tops.
-Print Assumptions tops_run_context.
-Print Assumptions tops_run_prefix.
-Print Assumptions parse_tops_prefix.
-Print Assumptions parse_tops_same_statements.
-Print Assumptions real_format_advs.
-Print Assumptions real_format_local.
-Print Assumptions real_format_lt.
-Print Assumptions same_statements_in_two_files.
-Print Assumptions parse_program_same_statements.
-Print Assumptions top_step_context_real.
-Print Assumptions tops_run_context_real.
-Print Assumptions parse_tops_same_statements_real.
-Print Assumptions parse_program_same_statements_real.
